@@ -30,6 +30,18 @@ def vecPop {α : Type} (l : List α) : Option α × List α := (l.getLast?, l.dr
 @[simp] theorem vecPop_concat {α : Type} (l : List α) (a : α) : vecPop (l ++ [a]) = (some a, l) := by
   simp [vecPop]
 
+/-- all items of an iterator whose translated `next` returns `(item, new state)`: `next` is called until it returns
+`None` (the first argument only bounds the number of calls; `Res.fuel` when it does not suffice) -/
+def collect {σ α : Type} (next : σ → Res (Option α × σ)) : Nat → σ → Res (List α)
+  | 0, _ => Res.fuel
+  | n + 1, s => do
+    let (r, s') ← next s
+    match r with
+    | none => pure []
+    | some a => do
+      let rest ← collect next n s'
+      pure (a :: rest)
+
 /-- the value of a run that finished normally (for `decide`-checked examples on types without decidable equality) -/
 def Res.toOption {α : Type} : Res α → Option α
   | .ok a => some a
